@@ -378,7 +378,8 @@ def explore_hdd(M, syms, max_dev, v):
         if len(v) > nv:     # describe the script only when something failed (keeps the per-leaf cost low)
             how = f'answers(index into candidates)={tuple(rng.answers)} decisions={[(f, list(c)[:16]) for f, c in dec][:12]}'
             v[nv:] = [(k, m.replace('@HOW@', how)) for k, m in v[nv:]]
-        outcomes.add(tuple(outcome[1]) if outcome[0] == 'ok' else outcome[:2])
+        outcomes.add(bytes(outcome[1]) if outcome[0] == 'ok' and max(outcome[1], default=0) < 256 and min(outcome[1], default=0) >= 0
+                     else repr(outcome[:2]).encode())
         ndev = sum(1 for a in prefix if a)
         ans = tuple(rng.answers)
         for i in range(L, D):
@@ -412,9 +413,9 @@ def hdd_case(case):
         for seed in range(4):
             np.random.seed(seed)
             y = HDD(np.array(bits, dtype=bool), M)
-            vals = tuple(as_int_list(data_of(y)[0]))
-            hdd_outcome_oracle(M, syms, ('ok', list(vals), type(y).__name__), f'real RNG np.random.seed({seed})', v)
-            if vals not in outcomes:
+            vals = as_int_list(data_of(y)[0])
+            hdd_outcome_oracle(M, syms, ('ok', vals, type(y).__name__), f'real RNG np.random.seed({seed})', v)
+            if bytes(vals) not in outcomes:
                 raise RuntimeError(f'real-RNG outcome {vals} (seed {seed}) of M={M} symbols={syms} is not a leaf of the '
                                    f'explored answer tree: the scripted RNG does not cover the real one')
             st['hdd_real_runs'] = st.get('hdd_real_runs', 0) + 1
@@ -422,7 +423,7 @@ def hdd_case(case):
     st['hdd_patterns'] = 1
     st['hdd_patterns_multi_outcome'] = int(len(outcomes) > 1)
     st['hdd_distinct_outcomes'] = len(outcomes)
-    return res(viol=_dedup(v), obs=(M, syms, max_dev, tuple(sorted(outcomes, key=repr))),
+    return res(viol=_dedup(v), obs=(M, syms, max_dev, len(outcomes), zlib.crc32(b'|'.join(sorted(outcomes)))),
                nontrivial=(M, syms) if ndec else False, stats=st)
 
 
@@ -678,15 +679,14 @@ def hdd_spaces(tier):
     for M, ns in full.items():
         for n in ns:
             extras = ('forms', 'real') if n * M <= 8 else ('real',) if n * M <= 12 else ()
-            parts.append((f'hdd.full.M{M}.n{n}', [('hdd', M, s, None, extras) for s in all_patterns(M, n)], 60))
+            parts.append((f'hdd.full.M{M}.n{n}', [('hdd', M, s, None, extras) for s in all_patterns(M, n)], 300))
     # (b) EVERY slot pattern, deviation-bounded tree (quick only: 13..16 slots; thorough explores these fully above)
     if quick:
         for M, ns in {2: (7, 8), 4: (4,), 8: (2,)}.items():
             for n in ns:
-                parts.append((f'hdd.dev2.M{M}.n{n}', [('hdd', M, s, 2, ()) for s in all_patterns(M, n)], 60))
+                parts.append((f'hdd.dev2.M{M}.n{n}', [('hdd', M, s, 2, ()) for s in all_patterns(M, n)], 300))
     else:
-        for n in (9, 10):
-            parts.append((f'hdd.dev1.M2.n{n}', [('hdd', 2, s, 1, ()) for s in all_patterns(2, n)], 60))
+        parts.append(('hdd.dev1.M2.n9', [('hdd', 2, s, 1, ()) for s in all_patterns(2, 9)], 300))
     # (c) large orders and long sequences: symbols from a kinds alphabet, deviation-bounded
     for M in ORDERS[3:]:
         kinds = symbol_kinds(M)
@@ -695,12 +695,12 @@ def hdd_spaces(tier):
                 continue
             dev = None if n == 1 else (1 if quick else (None if n == 2 else 1))
             name = f'hdd.kinds.M{M}.n{n}.' + ('full' if dev is None else f'dev{dev}')
-            parts.append((name, [('hdd', M, s, dev, ()) for s in itertools.product(kinds, repeat=n)], 120))
-    long_seq = [(4, 5, 1), (8, 3, 2), (8, 4, 2)] if quick else [(4, 5, 2), (4, 6, 2), (8, 3, None), (8, 4, 2), (8, 5, 2)]
+            parts.append((name, [('hdd', M, s, dev, ()) for s in itertools.product(kinds, repeat=n)], 3600 if dev is None else 600))
+    long_seq = [(4, 5, 1), (8, 3, 2), (8, 4, 2)] if quick else [(4, 5, 2), (8, 3, None), (8, 4, 2), (8, 5, 2)]
     for M, n, dev in long_seq:
         kinds = symbol_kinds(M)
         name = f'hdd.kinds.M{M}.n{n}.' + ('full' if dev is None else f'dev{dev}')
-        parts.append((name, [('hdd', M, s, dev, ()) for s in itertools.product(kinds, repeat=n)], 60))
+        parts.append((name, [('hdd', M, s, dev, ()) for s in itertools.product(kinds, repeat=n)], 600))
     return parts
 
 
@@ -708,7 +708,7 @@ def enc_spaces(tier, seed):
     quick = tier == 'quick'
     parts = []
     words = [('enc', M, L, val) for L in range(0, 13) for val in range(2 ** L) for M in ORDERS]
-    parts.append(('encdec.words<=12bits', words, 20))
+    parts.append(('encdec.words<=12bits', words, 120))
     # every ordered pair / triple of symbol values
     seq = []
     for M in ORDERS:
@@ -719,16 +719,16 @@ def enc_spaces(tier, seed):
         for v1 in edge:
             for v2 in edge:
                 seq.append(('encseq', M, (v1, v2), tuple(edge)))
-    parts.append(('encdec.symbol-sequences', seq, 60))
+    parts.append(('encdec.symbol-sequences', seq, 300))
     longs = []
     for M in ORDERS:
         k = log2i(M)
-        for nb in (2000, 2000 + k - 1, 4096 + 1):
+        for nb in sorted({2000, 2000 + k - 1, 4096 + 1}):
             for kind in ('zeros', 'ones', 'alt'):
                 longs.append(('enclong', M, nb, kind, 0))
             for j in range(2 if quick else 8):
                 longs.append(('enclong', M, nb, 'seeded', seed * 1000 + j))
-    parts.append(('encdec.long-words', longs, 60))
+    parts.append(('encdec.long-words', longs, 300))
     return parts
 
 
@@ -755,20 +755,20 @@ def sdd_spaces(tier, seed):
             for cw in codewords(M, quick):
                 dac.append(('sdddac', M, sps, shape, cw))
     dac.sort(key=lambda c: (len(c[4]) * c[1], c[1], c[2]))
-    parts.append(('sdd.identity-on-DAC(codeword)', dac, 60))
+    parts.append(('sdd.identity-on-DAC(codeword)', dac, 120))
     arg = []
     for M in ORDERS:
         for sps in (1, 2, 5, 16):
             for fam in ('amp', 'free', 'real'):
                 for k in range(2 if quick else 8):
                     arg.append(('sddarg', M, sps, max(2, 512 // M), fam, k, seed))
-    parts.append(('sdd.argmax-seeded-energies', arg, 60))
+    parts.append(('sdd.argmax-seeded-energies', arg, 120))
     perm = []
     for M in (2, 4) if quick else (2, 4, 8):
         for sps in (1, 2, 5, 16):
             for p in itertools.permutations(range(1, M + 1)):
                 perm.append(('sddperm', M, sps, p))
-    parts.append(('sdd.argmax-permutations', perm, 20))
+    parts.append(('sdd.argmax-permutations', perm, 120))
     return parts
 
 
@@ -798,7 +798,7 @@ def ve_spaces(tier):
                 if length % base:
                     for form in sforms:
                         cases.append(('ve', 'SDD', 'length-not-whole-symbols', M, length, form, sps))
-    return [('valueerror-clauses', cases, 20)]
+    return [('valueerror-clauses', cases, 120)]
 
 
 def conformance_space(tier, seed):
@@ -806,11 +806,11 @@ def conformance_space(tier, seed):
     cases = []
     for M in ORDERS:
         nslots = M * -(-2000 // M)
-        for dens in (0.5 / M, 1.0 / M, 0.5):
+        for dens in sorted({0.5 / M, 1.0 / M, 0.5, 0.9}):
             for rseed in range(8):
                 for f in range(1 if quick else 4):
                     cases.append(('hddreal', M, nslots, dens, rseed, seed * 100 + f))
-    return [('hdd.real-rng-conformance', cases, 60)]
+    return [('hdd.real-rng-conformance', cases, 300)]
 
 
 # =========================================================================== driver
